@@ -179,7 +179,7 @@ def main(ctx):
         corpus = corpus[::3]
     ctx.pmap(corpus_worker, [(p, known) for p in corpus])
     n = 10 if quick else 200
-    stop_at = time.time() + (75 if quick else 1500)
+    stop_at = time.time() + (75 if quick else 900)
     ctx.pmap(worker, [(ctx.seed * 100003 + i, n, known, stop_at) for i in range(common.NPROC)])
     ctx.rule = ("case = generated program (regex / case heavy) or corpus program, compiled in 6-8 fresh processes: PYTHONHASHSEED 0/1/2/random alone, "
                 "after 1-3 other compilations (rejected ones and other flag sets included, kept alive or released), twice in a row, with heap "
